@@ -412,7 +412,7 @@ def applyEvent (s : PSys) : Event → Except String PSys
     let d := s.nodes donor
     if n.term = 0 ∧ n.vote = 0 ∧ n.log = [] ∧ n.commit = 0 ∧ n.dterm = 0 ∧ n.dvote = 0 ∧ n.dlog = [] ∧
         n.dcommit = 0 ∧ n.outbox = [] ∧ n.pending = [] ∧ n.role = 0 ∧ i ≠ donor ∧
-        0 < idx ∧ idx ≤ d.dcommit ∧ idx ≤ d.dlog.length then
+        0 < idx ∧ idx ≤ d.dcommit ∧ idx ≤ d.dlog.length ∧ n.dacks = [] then
       let t := d.dterm
       ok { s with nodes := upd s.nodes i { n with up := true, term := t, dterm := t, log := d.dlog.take idx, dlog := d.dlog.take idx, commit := idx, dcommit := idx } }
     else .error "bootstrap: node is not fresh, or the prefix is not durably committed at the donor"
